@@ -243,13 +243,7 @@ impl TryFrom<&str> for FeelDateTime {
                         if let Ok(min) = min_match.as_str().parse::<u8>() {
                           if let Some(sec_match) = captures.name("seconds") {
                             if let Ok(sec) = sec_match.as_str().parse::<u8>() {
-                              let mut fractional = 0.0;
-                              if let Some(frac_match) = captures.name("fractional") {
-                                if let Ok(frac) = frac_match.as_str().parse::<f64>() {
-                                  fractional = frac;
-                                }
-                              }
-                              let nanos = (fractional * 1e9).trunc() as u64;
+                              let nanos = captures.name("fractional").map_or(0, |frac_match| fraction_to_nanos(frac_match.as_str()));
                               if is_valid_date(year, month, day) {
                                 let date = FeelDate::new(year, month, day);
                                 if let Some(zone) = FeelZone::from_captures(&captures) {
@@ -427,13 +421,7 @@ fn parse_time_literal(s: &str) -> Result<FeelTime> {
           if let Ok(min) = min_match.as_str().parse::<u8>() {
             if let Some(sec_match) = captures.name("seconds") {
               if let Ok(sec) = sec_match.as_str().parse::<u8>() {
-                let mut fractional = 0.0;
-                if let Some(frac_match) = captures.name("fractional") {
-                  if let Ok(frac) = frac_match.as_str().parse::<f64>() {
-                    fractional = frac;
-                  }
-                }
-                let nanos = (fractional * 1e9).trunc() as u64;
+                let nanos = captures.name("fractional").map_or(0, |frac_match| fraction_to_nanos(frac_match.as_str()));
                 if let Some(zone) = FeelZone::from_captures(&captures) {
                   if is_valid_time(hour, min, sec) {
                     return Ok(FeelTime(hour, min, sec, nanos, zone));
@@ -624,6 +612,18 @@ fn get_zone_offset(zone_name: &str, date: (i32, u32, u32), time: (u32, u32, u32,
     }
   }
   None
+}
+
+/// Converts the fractional part of seconds (a dot followed by decimal digits) into nanoseconds.
+/// The digits are taken exactly as written, digits after the ninth are dropped.
+fn fraction_to_nanos(fraction: &str) -> u64 {
+  let mut nanos = 0_u64;
+  let mut scale = NANOS_IN_SECOND / 10;
+  for digit in fraction.chars().filter_map(|ch| ch.to_digit(10)) {
+    nanos += digit as u64 * scale;
+    scale /= 10;
+  }
+  nanos
 }
 
 /// Converts the number of nanoseconds into textual form, the trailing zeros a stripped.
